@@ -102,9 +102,16 @@ func (t *TempoService) GetQueryRequest(ctx context.Context, startNS int64, endNS
 }
 
 func (t *TempoService) OutputQuery(binIds bool, rows *sql2.Rows) (chan *model.SpanResponse, error) {
+	return t.outputQuery(context.Background(), binIds, rows)
+}
+
+// outputQuery streams the spans of rows until they are exhausted or ctx (the request) is done: a consumer that
+// stopped reading must not leave the producer, and the rows it holds, behind.
+func (t *TempoService) outputQuery(ctx context.Context, binIds bool, rows *sql2.Rows) (chan *model.SpanResponse, error) {
 	res := make(chan *model.SpanResponse)
 	go func() {
 		defer close(res)
+		defer rows.Close()
 		parser := fastjson.Parser{}
 		for rows.Next() {
 			var zipkin zipkinPayload
@@ -128,8 +135,16 @@ func (t *TempoService) OutputQuery(binIds bool, rows *sql2.Rows) (chan *model.Sp
 				fmt.Println(err)
 				return
 			}
-			res <- &model.SpanResponse{
+			if span == nil {
+				// a payload type this reader does not know: nothing to render
+				continue
+			}
+			select {
+			case res <- &model.SpanResponse{
 				span, serviceName,
+			}:
+			case <-ctx.Done():
+				return
 			}
 		}
 	}()
@@ -151,7 +166,7 @@ func (t *TempoService) Query(ctx context.Context, startNS int64, endNS int64, tr
 	if err != nil {
 		return nil, err
 	}
-	return t.OutputQuery(binIds, rows)
+	return t.outputQuery(ctx, binIds, rows)
 }
 
 func (t *TempoService) GetTagsRequest(ctx context.Context, conn *model.DataDatabasesMap) sql.ISelect {
